@@ -76,6 +76,10 @@ theorem recOk_stay (w : Bool) (k : Nat) (v : Verdict) (enS enR : Bool) (s lb loa
   intro hc
   simp [hv] at hc
 
+@[simp] theorem hearVerdict_crossed (b : Bool) : (hearVerdict b).crossed = false := by cases b <;> rfl
+@[simp] theorem hearVerdict_loaded (b : Bool) : (hearVerdict b).loaded = false := by cases b <;> rfl
+theorem hearVerdict_heard (b : Bool) (h : hearVerdict b = .heard) : b = true := by cases b <;> simp_all [hearVerdict]
+
 mutual
 /-- One event keeps every link and channel within capacity, and every `send_frame` that returns inside it satisfies `RecOk`. -/
 theorem runEv_ok (n : Net) (e : Ev) (h : Inv n) :
@@ -220,6 +224,129 @@ theorem runEv_ok (n : Net) (e : Ev) (h : Inv n) :
     | some ch =>
       have hl : ch.load ≤ ch.cap := h.2 ch (List.mem_of_getElem? hk)
       exact ⟨inv_set_chan h c _ hl, by intro r hr; cases hr⟩
+  | lost k fromA s nested =>
+    unfold runEv
+    cases hk : n.links[k]? with
+    | none =>
+      refine ⟨h, ?_⟩
+      intro r hr
+      simp only [List.mem_singleton] at hr
+      subst hr
+      exact recOk_stay _ _ _ _ _ _ _ _ _ _ rfl (Nat.le_refl _)
+    | some l =>
+      have hl : l.load ≤ l.bw := h.1 l (List.mem_of_getElem? hk)
+      simp only
+      by_cases h1 : (if fromA then l.enA else l.enB) = true
+      · by_cases h2 : l.isUp = true
+        · by_cases h3 : admits l.load s l.bw = true
+          · simp only [h1, h2, h3, Bool.not_true, Bool.false_eq_true, if_false]
+            have hfit : l.load + s ≤ l.bw := by simpa [admits] using h3
+            have hup : (if fromA then l.enB else l.enA) = true := by
+              unfold Link.isUp at h2
+              cases fromA <;> simp_all
+            have hn1 : Inv { n with links := n.links.set k { l with load := l.load + s } } :=
+              inv_set_link h k _ hfit
+            obtain ⟨hi, hr⟩ := runEvs_ok _ nested hn1
+            refine ⟨hi, ?_⟩
+            intro r hmem
+            rcases List.mem_append.mp hmem with hmem | hmem
+            · exact hr r hmem
+            · simp only [List.mem_singleton] at hmem
+              subst hmem
+              exact ⟨inv_loadOf hi k, fun _ => ⟨rfl, hup⟩⟩
+          · simp only [h1, h2, h3, Bool.not_true, Bool.not_false, Bool.false_eq_true, if_false, if_true]
+            refine ⟨h, ?_⟩
+            intro r hr
+            simp only [List.mem_singleton] at hr
+            subst hr
+            exact recOk_stay _ _ _ _ _ _ _ _ _ _ rfl hl
+        · simp only [h1, h2, Bool.not_true, Bool.not_false, Bool.false_eq_true, if_false, if_true]
+          refine ⟨h, ?_⟩
+          intro r hr
+          simp only [List.mem_singleton] at hr
+          subst hr
+          exact recOk_stay _ _ _ _ _ _ _ _ _ _ rfl hl
+      · simp only [h1, Bool.not_false, if_true]
+        refine ⟨h, ?_⟩
+        intro r hr
+        simp only [List.mem_singleton] at hr
+        subst hr
+        exact recOk_stay _ _ _ _ _ _ _ _ _ _ rfl hl
+  | wlost c i s nested =>
+    unfold runEv
+    cases hk : n.chans[c]? with
+    | none =>
+      refine ⟨h, ?_⟩
+      intro r hr
+      simp only [List.mem_singleton] at hr
+      subst hr
+      exact recOk_stay _ _ _ _ _ _ _ _ _ _ rfl (Nat.le_refl _)
+    | some ch =>
+      have hl : ch.load ≤ ch.cap := h.2 ch (List.mem_of_getElem? hk)
+      simp only
+      cases hi : ch.en[i]? with
+      | none =>
+        refine ⟨h, ?_⟩
+        intro r hr
+        simp only [List.mem_singleton] at hr
+        subst hr
+        exact recOk_stay _ _ _ _ _ _ _ _ _ _ rfl hl
+      | some enS =>
+        simp only
+        cases hcI : ch.caps[i]? with
+        | none =>
+          refine ⟨h, ?_⟩
+          intro r hr
+          simp only [List.mem_singleton] at hr
+          subst hr
+          exact recOk_stay _ _ _ _ _ _ _ _ _ _ rfl hl
+        | some capI =>
+        have hcap : capI ≤ ch.cap := caps_le_cap ch i capI hcI
+        simp only
+        cases enS with
+        | false =>
+          simp only [Bool.not_false, if_true]
+          refine ⟨h, ?_⟩
+          intro r hr
+          simp only [List.mem_singleton] at hr
+          subst hr
+          exact recOk_stay _ _ _ _ _ _ _ _ _ _ rfl hl
+        | true =>
+          by_cases h3 : admits ch.load s capI = true
+          · simp only [h3, Bool.not_true, Bool.false_eq_true, if_false]
+            have hfit : ch.load + s ≤ capI := by simpa [admits] using h3
+            have hn1 : Inv { n with chans := n.chans.set c { ch with load := ch.load + s } } :=
+              inv_set_chan h c _ (by show ch.load + s ≤ ch.cap; omega)
+            obtain ⟨hi', hr⟩ := runEvs_ok _ nested hn1
+            refine ⟨hi', ?_⟩
+            intro r hmem
+            rcases List.mem_append.mp hmem with hmem | hmem
+            · exact hr r hmem
+            · simp only [List.mem_singleton] at hmem
+              subst hmem
+              exact ⟨inv_cloadOf hi' c, fun _ => ⟨rfl, rfl⟩⟩
+          · simp only [h3, Bool.not_true, Bool.not_false, Bool.false_eq_true, if_false, if_true]
+            refine ⟨h, ?_⟩
+            intro r hr
+            simp only [List.mem_singleton] at hr
+            subst hr
+            exact recOk_stay _ _ _ _ _ _ _ _ _ _ rfl hl
+  | wrecv c i j =>
+    unfold runEv
+    cases hk : n.chans[c]? with
+    | none =>
+      refine ⟨h, ?_⟩
+      intro r hr
+      simp only [List.mem_singleton] at hr
+      subst hr
+      exact ⟨Nat.le_refl _, fun hc => by simp [Verdict.crossed] at hc⟩
+    | some ch =>
+      have hl : ch.load ≤ ch.cap := h.2 ch (List.mem_of_getElem? hk)
+      refine ⟨h, ?_⟩
+      intro r hr
+      simp only [List.mem_singleton] at hr
+      subst hr
+      exact ⟨hl, fun hc => by simp at hc⟩
 
 theorem runEvs_ok (n : Net) (es : List Ev) (h : Inv n) :
     Inv (runEvs n es).1 ∧ ∀ r ∈ (runEvs n es).2, RecOk r := by
@@ -247,74 +374,425 @@ theorem tick_inv (n : Net) : Inv (tick n) := by
     obtain ⟨c0, _, rfl⟩ := hc
     exact Nat.zero_le _
 
-theorem run_ok (n : Net) (ops : List Op) (h : Inv n) :
+/-! ### Capacity changes between actions
+
+`link.bandwidth = v` and `AirSpace.set_frequency_max_capacity_mbps` are plain assignments: they do not look at the load.  Lowering a
+capacity below what has already been carried in the tick makes `load ≤ capacity` false *of the state* without any frame having been
+sent; everything else keeps it.  `CapSafe` is exactly that side condition (it holds trivially for histories without capacity
+changes, and for every raise); what holds with **no** side condition is stated per record (`C18_crossed_only_if_fits`) and per
+bound (`C18_admitted_under_every_tick`). -/
+
+theorem inv_setBw (n : Net) (k v : Nat) (h : Inv n) (hv : loadOf n k ≤ v) : Inv (setBw n k v) := by
+  unfold setBw
+  cases hk : n.links[k]? with
+  | none => exact h
+  | some l =>
+    simp only
+    refine inv_set_link h k _ ?_
+    simpa [loadOf, hk] using hv
+
+theorem inv_setCap (n : Net) (c i v : Nat) (h : Inv n) (hv : cloadOf n c ≤ capOf (setCap n c i v) c) :
+    Inv (setCap n c i v) := by
+  unfold setCap at hv ⊢
+  cases hc : n.chans[c]? with
+  | none => exact h
+  | some ch =>
+    obtain ⟨hlt, hget⟩ := List.getElem?_eq_some_iff.mp hc
+    simp only [hc] at hv ⊢
+    refine inv_set_chan h c _ ?_
+    simpa [cloadOf, capOf, hc, hlt, hget] using hv
+
+/-- The capacity change `o` (if it is one) leaves the new capacity at or above the load of the moment. -/
+def Op.safeAt (n : Net) : Op → Bool
+  | .setBw k v => decide (loadOf n k ≤ v)
+  | .setCap c i v => decide (cloadOf n c ≤ capOf (Primaite.Link.setCap n c i v) c)
+  | _ => true
+
+/-- Every capacity change of the history leaves the new capacity at or above the load of that moment (decidable). -/
+def capSafe : Net → List Op → Bool
+  | _, [] => true
+  | n, o :: os => o.safeAt n && capSafe (step n o).1 os
+
+def CapSafe (n : Net) (ops : List Op) : Prop := capSafe n ops = true
+
+instance (n : Net) (ops : List Op) : Decidable (CapSafe n ops) := by unfold CapSafe; infer_instance
+
+/-- No operation of the history changes a bandwidth or a capacity. -/
+def NoCap (ops : List Op) : Prop := ∀ o ∈ ops, o.isCap = false
+
+theorem capSafe_of_noCap (n : Net) (ops : List Op) (h : NoCap ops) : CapSafe n ops := by
+  induction ops generalizing n with
+  | nil => rfl
+  | cons o os ih =>
+    have ho : o.isCap = false := h o (List.mem_cons_self ..)
+    have := ih (step n o).1 (fun o' h' => h o' (List.mem_cons_of_mem _ h'))
+    unfold CapSafe at this ⊢
+    unfold capSafe
+    rw [this, Bool.and_true]
+    cases o <;> simp_all [Op.isCap, Op.safeAt]
+
+theorem run_ok (n : Net) (ops : List Op) (h : Inv n) (hs : CapSafe n ops) :
     Inv (run n ops).1 ∧ ∀ r ∈ (run n ops).2, RecOk r := by
   induction ops generalizing n with
   | nil => exact ⟨h, by intro r hr; cases hr⟩
   | cons o os ih =>
     unfold run
+    unfold CapSafe capSafe at hs
+    obtain ⟨hs1, hs2⟩ := Bool.and_eq_true_iff.mp hs
     have h1 : Inv (step n o).1 ∧ ∀ r ∈ (step n o).2, RecOk r := by
       cases o with
       | tick => exact ⟨tick_inv n, by intro r hr; cases hr⟩
       | act evs => exact runEvs_ok n evs h
-    obtain ⟨h2, r2⟩ := ih (step n o).1 h1.1
+      | setBw k v => exact ⟨inv_setBw n k v h (by simpa [Op.safeAt] using hs1), by intro r hr; cases hr⟩
+      | setCap c i v => exact ⟨inv_setCap n c i v h (by simpa [Op.safeAt] using hs1), by intro r hr; cases hr⟩
+    obtain ⟨h2, r2⟩ := ih (step n o).1 h1.1 hs2
     refine ⟨h2, ?_⟩
     intro r hmem
     rcases List.mem_append.mp hmem with hmem | hmem
     · exact h1.2 r hmem
     · exact r2 r hmem
 
+/-! ### What holds of every hand-over with no assumption at all -/
+
+/-- If the frame was handed to a receiving interface then both end interfaces were enabled at that moment **and the frame fitted**:
+the load before it plus its size was within the capacity then in force (wired: the bandwidth; wireless: the capacity of the
+sender's frequency name).  And an interface hears a frame that is in the air only if it is enabled at that moment. -/
+def RecFit (r : Rec) : Prop :=
+  (r.verdict.crossed = true → r.enS = true ∧ r.enR = true ∧ r.loadBefore + r.size ≤ r.capS) ∧
+  (r.verdict = .heard → r.enR = true)
+
+theorem recFit_stay (w : Bool) (k : Nat) (v : Verdict) (enS enR : Bool) (s lb load bw cs : Nat) (hv : v.crossed = false)
+    (hh : v ≠ .heard) :
+    RecFit { wireless := w, k, verdict := v, enS, enR, rcv := [], size := s, loadBefore := lb, load, bw, capS := cs } :=
+  ⟨fun hc => by simp [hv] at hc, fun h => absurd h hh⟩
+
+mutual
+theorem runEv_fit (n : Net) (e : Ev) : ∀ r ∈ (runEv n e).2, RecFit r := by
+  cases e with
+  | send k fromA s acc nested =>
+    unfold runEv
+    cases hk : n.links[k]? with
+    | none =>
+      intro r hr
+      simp only [List.mem_singleton] at hr
+      subst hr
+      exact recFit_stay _ _ _ _ _ _ _ _ _ _ rfl (by decide)
+    | some l =>
+      simp only
+      by_cases h1 : (if fromA then l.enA else l.enB) = true
+      · by_cases h2 : l.isUp = true
+        · by_cases h3 : admits l.load s l.bw = true
+          · simp only [h1, h2, h3, Bool.not_true, Bool.false_eq_true, if_false]
+            have hfit : l.load + s ≤ l.bw := by simpa [admits] using h3
+            have hup : (if fromA then l.enB else l.enA) = true := by
+              unfold Link.isUp at h2
+              cases fromA <;> simp_all
+            cases acc with
+            | true =>
+              simp only [if_true]
+              intro r hmem
+              rcases List.mem_append.mp hmem with hmem | hmem
+              · exact runEvs_fit _ nested r hmem
+              · simp only [List.mem_singleton] at hmem
+                subst hmem
+                exact ⟨fun _ => ⟨rfl, hup, hfit⟩, fun hh => nomatch hh⟩
+            | false =>
+              simp only [Bool.false_eq_true, if_false]
+              intro r hmem
+              simp only [List.mem_singleton] at hmem
+              subst hmem
+              exact ⟨fun _ => ⟨rfl, hup, hfit⟩, fun hh => nomatch hh⟩
+          · simp only [h1, h2, h3, Bool.not_true, Bool.not_false, Bool.false_eq_true, if_false, if_true]
+            intro r hr
+            simp only [List.mem_singleton] at hr
+            subst hr
+            exact recFit_stay _ _ _ _ _ _ _ _ _ _ rfl (by decide)
+        · simp only [h1, h2, Bool.not_true, Bool.not_false, Bool.false_eq_true, if_false, if_true]
+          intro r hr
+          simp only [List.mem_singleton] at hr
+          subst hr
+          exact recFit_stay _ _ _ _ _ _ _ _ _ _ rfl (by decide)
+      · simp only [h1, Bool.not_false, if_true]
+        intro r hr
+        simp only [List.mem_singleton] at hr
+        subst hr
+        exact recFit_stay _ _ _ _ _ _ _ _ _ _ rfl (by decide)
+  | wsend c i s nested =>
+    unfold runEv
+    cases hk : n.chans[c]? with
+    | none =>
+      intro r hr
+      simp only [List.mem_singleton] at hr
+      subst hr
+      exact recFit_stay _ _ _ _ _ _ _ _ _ _ rfl (by decide)
+    | some ch =>
+      simp only
+      cases hi : ch.en[i]? with
+      | none =>
+        intro r hr
+        simp only [List.mem_singleton] at hr
+        subst hr
+        exact recFit_stay _ _ _ _ _ _ _ _ _ _ rfl (by decide)
+      | some enS =>
+        simp only
+        cases hcI : ch.caps[i]? with
+        | none =>
+          intro r hr
+          simp only [List.mem_singleton] at hr
+          subst hr
+          exact recFit_stay _ _ _ _ _ _ _ _ _ _ rfl (by decide)
+        | some capI =>
+        simp only
+        cases enS with
+        | false =>
+          simp only [Bool.not_false, if_true]
+          intro r hr
+          simp only [List.mem_singleton] at hr
+          subst hr
+          exact recFit_stay _ _ _ _ _ _ _ _ _ _ rfl (by decide)
+        | true =>
+          by_cases h3 : admits ch.load s capI = true
+          · simp only [h3, Bool.not_true, Bool.false_eq_true, if_false]
+            have hfit : ch.load + s ≤ capI := by simpa [admits] using h3
+            intro r hmem
+            rcases List.mem_append.mp hmem with hmem | hmem
+            · exact runEvs_fit _ nested r hmem
+            · simp only [List.mem_singleton] at hmem
+              subst hmem
+              exact ⟨fun _ => ⟨rfl, rfl, hfit⟩, fun hh => nomatch hh⟩
+          · simp only [h3, Bool.not_true, Bool.not_false, Bool.false_eq_true, if_false, if_true]
+            intro r hr
+            simp only [List.mem_singleton] at hr
+            subst hr
+            exact recFit_stay _ _ _ _ _ _ _ _ _ _ rfl (by decide)
+  | setEn k endA v =>
+    unfold runEv
+    cases hk : n.links[k]? with
+    | none => intro r hr; cases hr
+    | some l =>
+      simp only
+      by_cases hcur : ((if endA then l.enA else l.enB) == v) = true
+      · simp only [hcur, if_true]; intro r hr; cases hr
+      · simp only [hcur, Bool.false_eq_true, if_false]; intro r hr; cases hr
+  | wsetEn c i v =>
+    unfold runEv
+    cases hk : n.chans[c]? with
+    | none => intro r hr; cases hr
+    | some ch => intro r hr; cases hr
+  | lost k fromA s nested =>
+    unfold runEv
+    cases hk : n.links[k]? with
+    | none =>
+      intro r hr
+      simp only [List.mem_singleton] at hr
+      subst hr
+      exact recFit_stay _ _ _ _ _ _ _ _ _ _ rfl (by decide)
+    | some l =>
+      simp only
+      by_cases h1 : (if fromA then l.enA else l.enB) = true
+      · by_cases h2 : l.isUp = true
+        · by_cases h3 : admits l.load s l.bw = true
+          · simp only [h1, h2, h3, Bool.not_true, Bool.false_eq_true, if_false]
+            have hfit : l.load + s ≤ l.bw := by simpa [admits] using h3
+            have hup : (if fromA then l.enB else l.enA) = true := by
+              unfold Link.isUp at h2
+              cases fromA <;> simp_all
+            intro r hmem
+            rcases List.mem_append.mp hmem with hmem | hmem
+            · exact runEvs_fit _ nested r hmem
+            · simp only [List.mem_singleton] at hmem
+              subst hmem
+              exact ⟨fun _ => ⟨rfl, hup, hfit⟩, fun hh => nomatch hh⟩
+          · simp only [h1, h2, h3, Bool.not_true, Bool.not_false, Bool.false_eq_true, if_false, if_true]
+            intro r hr
+            simp only [List.mem_singleton] at hr
+            subst hr
+            exact recFit_stay _ _ _ _ _ _ _ _ _ _ rfl (by decide)
+        · simp only [h1, h2, Bool.not_true, Bool.not_false, Bool.false_eq_true, if_false, if_true]
+          intro r hr
+          simp only [List.mem_singleton] at hr
+          subst hr
+          exact recFit_stay _ _ _ _ _ _ _ _ _ _ rfl (by decide)
+      · simp only [h1, Bool.not_false, if_true]
+        intro r hr
+        simp only [List.mem_singleton] at hr
+        subst hr
+        exact recFit_stay _ _ _ _ _ _ _ _ _ _ rfl (by decide)
+  | wlost c i s nested =>
+    unfold runEv
+    cases hk : n.chans[c]? with
+    | none =>
+      intro r hr
+      simp only [List.mem_singleton] at hr
+      subst hr
+      exact recFit_stay _ _ _ _ _ _ _ _ _ _ rfl (by decide)
+    | some ch =>
+      simp only
+      cases hi : ch.en[i]? with
+      | none =>
+        intro r hr
+        simp only [List.mem_singleton] at hr
+        subst hr
+        exact recFit_stay _ _ _ _ _ _ _ _ _ _ rfl (by decide)
+      | some enS =>
+        simp only
+        cases hcI : ch.caps[i]? with
+        | none =>
+          intro r hr
+          simp only [List.mem_singleton] at hr
+          subst hr
+          exact recFit_stay _ _ _ _ _ _ _ _ _ _ rfl (by decide)
+        | some capI =>
+        simp only
+        cases enS with
+        | false =>
+          simp only [Bool.not_false, if_true]
+          intro r hr
+          simp only [List.mem_singleton] at hr
+          subst hr
+          exact recFit_stay _ _ _ _ _ _ _ _ _ _ rfl (by decide)
+        | true =>
+          by_cases h3 : admits ch.load s capI = true
+          · simp only [h3, Bool.not_true, Bool.false_eq_true, if_false]
+            have hfit : ch.load + s ≤ capI := by simpa [admits] using h3
+            intro r hmem
+            rcases List.mem_append.mp hmem with hmem | hmem
+            · exact runEvs_fit _ nested r hmem
+            · simp only [List.mem_singleton] at hmem
+              subst hmem
+              exact ⟨fun _ => ⟨rfl, rfl, hfit⟩, fun hh => nomatch hh⟩
+          · simp only [h3, Bool.not_true, Bool.not_false, Bool.false_eq_true, if_false, if_true]
+            intro r hr
+            simp only [List.mem_singleton] at hr
+            subst hr
+            exact recFit_stay _ _ _ _ _ _ _ _ _ _ rfl (by decide)
+  | wrecv c i j =>
+    unfold runEv
+    cases hk : n.chans[c]? with
+    | none =>
+      intro r hr
+      simp only [List.mem_singleton] at hr
+      subst hr
+      exact ⟨fun hc => by simp [Verdict.crossed] at hc, fun hh => nomatch hh⟩
+    | some ch =>
+      intro r hr
+      simp only [List.mem_singleton] at hr
+      subst hr
+      exact ⟨fun hc => by simp at hc, fun hh => hearVerdict_heard _ hh⟩
+
+theorem runEvs_fit (n : Net) (es : List Ev) : ∀ r ∈ (runEvs n es).2, RecFit r := by
+  cases es with
+  | nil => unfold runEvs; intro r hr; cases hr
+  | cons e es =>
+    unfold runEvs
+    intro r hmem
+    rcases List.mem_append.mp hmem with hmem | hmem
+    · exact runEv_fit n e r hmem
+    · exact runEvs_fit (runEv n e).1 es r hmem
+end
+
+theorem run_fit (n : Net) (ops : List Op) : ∀ r ∈ (run n ops).2, RecFit r := by
+  induction ops generalizing n with
+  | nil => intro r hr; cases hr
+  | cons o os ih =>
+    unfold run
+    intro r hmem
+    rcases List.mem_append.mp hmem with hmem | hmem
+    · cases o with
+      | tick => cases hmem
+      | act evs => exact runEvs_fit n evs r hmem
+      | setBw k v => cases hmem
+      | setCap c i v => cases hmem
+    · exact ih _ r hmem
+
 /-! ### The property -/
 
 /-- **load ≤ bandwidth, always.** From any state within capacity (in particular the state a tick starts in), after any
 history of ticks and actions — each action an arbitrary forest of sends nested inside deliveries, on wired links and
-wireless channels, with interfaces going up and down anywhere — every wired link and every wireless channel is within its
-capacity at the end, and was within its capacity each time a `send_frame` returned. -/
-theorem C18_load_le_bandwidth (n : Net) (ops : List Op) (h : Inv n) :
+wireless channels, with interfaces going up and down anywhere, with deliveries cut short by exceptions anywhere (`lost`) —
+every wired link and every wireless channel is within its capacity at the end, and was within its capacity each time a
+`send_frame` returned (or was unwound).  The history may change bandwidths and capacities between actions as long as no
+change puts a capacity below the load of that moment (`CapSafe`; see `C18_lowering_counterexample` for why that is needed
+and `C18_admitted_under_every_tick` for what holds without it). -/
+theorem C18_load_le_bandwidth (n : Net) (ops : List Op) (h : Inv n) (hs : CapSafe n ops) :
     (∀ l ∈ (run n ops).1.links, l.load ≤ l.bw) ∧
     (∀ c ∈ (run n ops).1.chans, c.load ≤ c.cap) ∧
     (∀ r ∈ (run n ops).2, r.load ≤ r.bw) := by
-  obtain ⟨hi, hr⟩ := run_ok n ops h
+  obtain ⟨hi, hr⟩ := run_ok n ops h hs
   exact ⟨hi.1, hi.2, fun r hmem => (hr r hmem).1⟩
+
+/-- The same for histories that never change a capacity (the case of every shipped scenario and of the environment: no code of
+the simulator assigns a bandwidth or a frequency capacity after construction — `Gen.Link.capacityWriters`). -/
+theorem C18_load_le_bandwidth_noCap (n : Net) (ops : List Op) (h : Inv n) (hn : NoCap ops) :
+    (∀ l ∈ (run n ops).1.links, l.load ≤ l.bw) ∧
+    (∀ c ∈ (run n ops).1.chans, c.load ≤ c.cap) ∧
+    (∀ r ∈ (run n ops).2, r.load ≤ r.bw) :=
+  C18_load_le_bandwidth n ops h (capSafe_of_noCap n ops hn)
+
+/-- The state-form of the property without the side condition. -/
+def C18_Full_load_any_capacity_change : Prop :=
+  ∀ (n : Net) (ops : List Op), Inv n → ∀ l ∈ (run n ops).1.links, l.load ≤ l.bw
+
+/-- It is false, and not because anything was sent: carry 8 over a link of 10, then assign `bandwidth = 5`.  The load (8) is
+now above the bandwidth (5) although every frame fitted when it was admitted.  (Not a defect of the accounting: the assignment
+is the user's; the property's "data carried ≤ bandwidth" is then read against the bandwidth in force when the data was
+admitted — `C18_crossed_only_if_fits`, `C18_admitted_under_every_tick`.) -/
+theorem C18_lowering_counterexample : ¬ C18_Full_load_any_capacity_change := by
+  intro h
+  have := h { links := [{ bw := 10, load := 0, enA := true, enB := true }], chans := [] }
+    [.act [.send 0 true 8 true []], .setBw 0 5] (by decide) { bw := 5, load := 8, enA := true, enB := true } (by decide)
+  revert this
+  decide
+
+/-- a raise is always safe; a lowering to no less than the load is safe -/
+example :
+    let n : Net := { links := [{ bw := 10, load := 0, enA := true, enB := true }], chans := [] }
+    Inv n ∧ CapSafe n [.act [.send 0 true 8 true []], .setBw 0 8, .act [.send 0 true 1 true []], .setBw 0 20,
+                        .act [.send 0 true 12 true []]] ∧
+    (run n [.act [.send 0 true 8 true []], .setBw 0 8, .act [.send 0 true 1 true []], .setBw 0 20,
+            .act [.send 0 true 12 true []]]).2.map (·.verdict) = [.carried, .full, .carried] := by decide
 
 /-- Any network is within capacity right after a tick boundary, whatever happened before (so the hypothesis of
 `C18_load_le_bandwidth` is met by every history that starts with a tick, and by a freshly built network). -/
 theorem C18_inv_after_tick (n : Net) : Inv (tick n) := tick_inv n
 
-/-- **Down links carry nothing.** Whenever a frame is handed to a receiving interface of a wired link (verdict `carried` or
-`rejected`), both end interfaces of the link were enabled at that moment; for a wireless send the sender was enabled. -/
-theorem C18_down_carries_nothing (n : Net) (ops : List Op) (h : Inv n) :
+/-- **Down links carry nothing.** Whenever a frame is handed to a receiving interface of a wired link (verdict `carried`,
+`rejected` or `lost`), both end interfaces of the link were enabled at that moment; for a wireless send the sender was enabled.
+For every history from every state (no invariant needed; capacity changes and aborted deliveries included). -/
+theorem C18_down_carries_nothing (n : Net) (ops : List Op) :
     ∀ r ∈ (run n ops).2, r.verdict.crossed = true → r.enS = true ∧ r.enR = true :=
-  fun r hmem => ((run_ok n ops h).2 r hmem).2
+  fun r hmem hc => ⟨((run_fit n ops r hmem).1 hc).1, ((run_fit n ops r hmem).1 hc).2.1⟩
 
-/-- The wireless receivers are enabled interfaces other than the sender. -/
-theorem receiversFrom_spec (i : Nat) (en : List Bool) (base j : Nat) (hj : j ∈ receiversFrom i base en) :
-    j ≠ i ∧ base ≤ j ∧ en[j - base]? = some true := by
-  induction en generalizing base with
-  | nil => simp [receiversFrom] at hj
-  | cons b bs ih =>
-    unfold receiversFrom at hj
-    by_cases hb : (b && base != i) = true
-    · simp only [hb, if_true, List.mem_cons] at hj
-      rcases hj with hj | hj
-      · subst hj
-        simp only [Bool.and_eq_true, bne_iff_ne, ne_eq] at hb
-        exact ⟨hb.2, Nat.le_refl _, by simp [hb.1]⟩
-      · obtain ⟨h1, h2, h3⟩ := ih (base + 1) hj
-        refine ⟨h1, by omega, ?_⟩
-        have : j - base = (j - (base + 1)) + 1 := by omega
-        rw [this]; simpa using h3
-    · simp only [hb, Bool.false_eq_true, if_false] at hj
-      obtain ⟨h1, h2, h3⟩ := ih (base + 1) hj
-      refine ⟨h1, by omega, ?_⟩
-      have : j - base = (j - (base + 1)) + 1 := by omega
-      rw [this]; simpa using h3
+/-- **A frame crosses only if it fits.** Every frame handed to a receiving interface fitted, at that moment, within the capacity
+then in force: `load before + size ≤ capacity`.  For every history from every state: whatever the loads were, whatever capacity
+changes happened in between, whether or not the delivery later ended in an exception. -/
+theorem C18_crossed_only_if_fits (n : Net) (ops : List Op) :
+    ∀ r ∈ (run n ops).2, r.verdict.crossed = true → r.loadBefore + r.size ≤ r.capS :=
+  fun r hmem hc => ((run_fit n ops r hmem).1 hc).2.2
 
-/-- **Wireless: only enabled interfaces receive.** -/
-theorem C18_wireless_receivers_enabled (en : List Bool) (i j : Nat) (hj : j ∈ receivers en i) :
-    j ≠ i ∧ en[j]? = some true := by
-  obtain ⟨h1, _, h3⟩ := receiversFrom_spec i en 0 j hj
-  exact ⟨h1, by simpa using h3⟩
+/-- **Wireless: only an interface that is enabled at that moment hears the frame** — decided at each turn of the loop of
+`AirSpace.transmit`, not when the send starts: for every history from every state. -/
+theorem C18_wireless_heard_only_if_enabled (n : Net) (ops : List Op) :
+    ∀ r ∈ (run n ops).2, r.verdict = .heard → r.enR = true :=
+  fun r hmem hh => (run_fit n ops r hmem).2 hh
+
+/-- One turn of that loop: interface `j` hears the frame sent by `i` iff it is enabled **now** and is not the sender; nothing
+else changes. -/
+theorem C18_wireless_hears_iff_enabled_now (n : Net) (c i j : Nat) (ch : Chan) (hc : n.chans[c]? = some ch) :
+    (runEv n (.wrecv c i j)).1 = n ∧
+    ∃ r, (runEv n (.wrecv c i j)).2 = [r] ∧ r.rcv = [j] ∧ (r.verdict = .heard ↔ (ch.en[j]? = some true ∧ j ≠ i)) := by
+  unfold runEv
+  simp only [hc, true_and]
+  refine ⟨_, rfl, rfl, ?_⟩
+  cases hj : ch.en[j]? with
+  | none => simp [hearVerdict]
+  | some b =>
+    cases b with
+    | false => simp [hearVerdict]
+    | true =>
+      by_cases hij : j = i
+      · simp [hearVerdict, hij]
+      · simp [hearVerdict, hij]
 
 /-- **Overflow is dropped at the sender (wired).** If the frame does not fit, nothing changes anywhere, nothing nested runs,
 and the single record says the frame did not cross. -/
@@ -422,7 +900,112 @@ interface does not involve its node; the airspace keys its load by hz and its ca
 theorem C18_gen_flags :
     Gen.Link.tickResetsEveryLoad = true ∧ Gen.Link.disableClearsLoad = false ∧
     Gen.Link.rejectedMeansNodeNotInvolved = true ∧ Gen.Link.bytesPerMbit = 131072 ∧
-    Gen.Link.airLoadKey = "frequency_hz" ∧ Gen.Link.airCapacityKey = "name" := by decide
+    Gen.Link.airLoadKey = "frequency_hz" ∧ Gen.Link.airCapacityKey = "name" ∧ Gen.Link.sizeIsWholeBytes = true := by decide
+
+/-! ### Inventories regenerated from the source: a class, a writer, a handler or a caller that appears (or disappears) breaks an
+obligation here, so nothing the model does not follow can be added silently -/
+
+/-- Every class of the `NetworkInterface` hierarchy that defines `send_frame`, `enable` or `disable`, with the order of its steps.
+The classes that transmit (`WiredNetworkInterface` and everything inheriting its `send_frame` — NIC, RouterInterface —, `SwitchPort`,
+`WirelessNetworkInterface` and its heir `wireless_router.WirelessAccessPoint`) follow the model's orders; `NetworkInterface.send_frame`
+only counts traffic (reached through `super()`); the two stub classes under `network_interface/wireless/` never transmit.
+`enable` sets the flag only after every precondition and before anything is sent (`hello` comes after `super`), `disable` clears it
+and touches no load. -/
+def ifaceMethodsModelled : List (String × String × String × List String) := [
+  ("IPWiredNetworkInterface", "base.py", "enable", ["super", "hello"]),
+  ("IPWirelessNetworkInterface", "airspace.py", "enable", ["super", "hello"]),
+  ("NetworkInterface", "base.py", "disable", ["abstract"]),
+  ("NetworkInterface", "base.py", "enable", ["abstract"]),
+  ("NetworkInterface", "base.py", "send_frame", ["capture"]),
+  ("SwitchPort", "switch.py", "send_frame", ["enabled", "admission", "transmit"]),
+  ("WiredNetworkInterface", "base.py", "disable", ["noop-if-disabled", "clear", "endpoint_down"]),
+  ("WiredNetworkInterface", "base.py", "enable", ["noop-if-enabled", "needs-node", "needs-node-on", "needs-link", "set", "endpoint_up"]),
+  ("WiredNetworkInterface", "base.py", "send_frame", ["enabled", "stamp", "admission", "transmit"]),
+  ("WirelessAccessPoint", "wireless_access_point.py", "disable", ["stub"]),
+  ("WirelessAccessPoint", "wireless_access_point.py", "enable", ["stub"]),
+  ("WirelessAccessPoint", "wireless_access_point.py", "send_frame", ["stub"]),
+  ("WirelessNIC", "wireless_nic.py", "disable", ["stub"]),
+  ("WirelessNIC", "wireless_nic.py", "enable", ["stub"]),
+  ("WirelessNIC", "wireless_nic.py", "send_frame", ["stub"]),
+  ("WirelessNetworkInterface", "airspace.py", "disable", ["noop-if-disabled", "clear", "leave-airspace"]),
+  ("WirelessNetworkInterface", "airspace.py", "enable", ["noop-if-enabled", "needs-node", "needs-node-on", "set", "join-airspace"]),
+  ("WirelessNetworkInterface", "airspace.py", "send_frame", ["enabled", "stamp", "admission", "transmit"])
+]
+
+theorem C18_gen_iface_inventory : Gen.Link.ifaceMethods = ifaceMethodsModelled := by decide
+
+/-- Every `send_frame` of the hierarchy is one of: the wired order, the switch-port order, the wireless order (stamp — except on a
+switch port, which only forwards stamped frames —, admission, transmit, in that order after the `enabled` test), pure bookkeeping,
+or a stub that sends nothing. -/
+theorem C18_gen_every_send_frame_modelled :
+    ∀ e ∈ Gen.Link.ifaceMethods, e.2.2.1 = "send_frame" →
+      e.2.2.2 = wiredSendOrder ∨ e.2.2.2 = switchSendOrder ∨ e.2.2.2 = wirelessSendOrder ∨ e.2.2.2 = ["capture"] ∨ e.2.2.2 = ["stub"] := by
+  decide
+
+/-- Nothing in src/primaite assigns a link's `bandwidth` or a frequency's `data_rate_bps`, or calls
+`set_frequency_max_capacity_mbps` / `register_frequency`, except `set_frequency_max_capacity_mbps` itself and
+`PrimaiteGame.from_config` (before any node exists).  So inside the simulator capacities are constant (`NoCap`); `Op.setBw` /
+`Op.setCap` model what a user's script can do between actions. -/
+theorem C18_gen_capacity_writers : Gen.Link.capacityWriters = [
+  "airspace.py:AirSpace.set_frequency_max_capacity_mbps:self.frequencies[freq].data_rate_bps=",
+  "game.py:PrimaiteGame.from_config:set_frequency_max_capacity_mbps()"] := by decide
+
+/-- The functions under simulator/network and simulator/system that contain a `try`.  None of them is on the path
+`send_frame → transmit_frame → receive_frame → node → session manager → software.receive` except the two FTP handlers
+(`_store_data` wraps file creation; `_retrieve_data` wraps `_send_data`, so an exception raised under a frame the FTP server sends
+is caught there: the sends below are `lost`, the delivery above completes — the second example after `C18_lost_stays_accounted`). -/
+theorem C18_gen_try_sites : Gen.Link.trySites = [
+  "ftp_service.py:FTPServiceABC._retrieve_data",
+  "ftp_service.py:FTPServiceABC._store_data",
+  "networks.py:_get_example_network",
+  "router.py:AccessControlList._init_request_manager",
+  "web_browser.py:WebBrowser.get_webpage"] := by decide
+
+/-- The software through which a received payload becomes a request executed on the receiving node (and so can disable or enable
+an interface, or power the node off, while the carrying frame is still being delivered): `Terminal.execute` is the only caller of
+`apply_request`; it is reached from `Terminal.receive` (remote command over SSH), from a local terminal connection, and from the
+C2 beacon's TERMINAL / exfiltration commands.  The rig drives the first and the C2 path (`rcmd`, `c2` operations). -/
+theorem C18_gen_remote_executors : Gen.Link.remoteExecutors = [
+  "c2_beacon.py:C2Beacon._command_data_exfiltration:execute",
+  "c2_beacon.py:C2Beacon._command_terminal:execute",
+  "c2_beacon.py:C2Beacon._perform_exfiltration:execute",
+  "terminal.py:LocalTerminalConnection.execute:execute",
+  "terminal.py:Terminal._init_request_manager:execute",
+  "terminal.py:Terminal.execute:apply_request"] := by decide
+
+/-- Every call that can change `enabled` of an interface, and every direct write of the flag. -/
+theorem C18_gen_toggle_sites : Gen.Link.toggleSites = [
+  "airspace.py:IPWirelessNetworkInterface.enable:super().enable",
+  "airspace.py:WirelessNetworkInterface.disable:self.enabled=False",
+  "airspace.py:WirelessNetworkInterface.enable:self.enabled=True",
+  "base.py:IPWiredNetworkInterface.enable:super().enable",
+  "base.py:NetworkInterface._init_request_manager:self.disable",
+  "base.py:NetworkInterface._init_request_manager:self.enable",
+  "base.py:NetworkInterface.setup_for_episode:self.enable",
+  "base.py:Node.apply_timestep:network_interface.enable",
+  "base.py:Node.connect_nic:network_interface.enable",
+  "base.py:Node.disconnect_nic:network_interface.disable",
+  "base.py:Node.power_off:network_interface.disable",
+  "base.py:Node.power_on:network_interface.enable",
+  "base.py:WiredNetworkInterface.connect_link:self.enable",
+  "base.py:WiredNetworkInterface.disable:self.enabled=False",
+  "base.py:WiredNetworkInterface.disconnect_link:self.disable",
+  "base.py:WiredNetworkInterface.enable:self.enabled=True",
+  "container.py:Network.setup_for_episode:network_interface.enable",
+  "creation.py:OfficeLANAdder.add_nodes_to_net:enable_port",
+  "creation.py:OfficeLANAdder.add_nodes_to_net:switch.network_interface[switch_port].enable",
+  "firewall.py:Firewall.configure_dmz_port:self.dmz_port.enable",
+  "firewall.py:Firewall.configure_external_port:self.external_port.enable",
+  "firewall.py:Firewall.configure_internal_port:self.internal_port.enable",
+  "networks.py:arcd_uc2_network:enable_port",
+  "networks.py:client_server_routed:enable_port",
+  "router.py:Router.disable_port:network_interface.disable",
+  "router.py:Router.enable_port:network_interface.enable",
+  "router.py:Router.setup_for_episode:enable_port",
+  "wireless_router.py:WirelessRouter.configure_router_interface:self.router_interface.disable",
+  "wireless_router.py:WirelessRouter.configure_router_interface:self.router_interface.enable",
+  "wireless_router.py:WirelessRouter.configure_wireless_access_point:self.wireless_access_point.disable",
+  "wireless_router.py:WirelessRouter.configure_wireless_access_point:self.wireless_access_point.enable"] := by decide
 
 /-! ### Non-vacuity: a tight link, an ARP-like request whose delivery triggers the reply -/
 
@@ -441,17 +1024,25 @@ example :
     r.1.links = [{ bw := 10, load := 4, enA := true, enB := false }] ∧
     r.2.map (·.verdict) = [.disabled, .carried, .down] := by decide
 
-/-- Wireless: three interfaces, the third disabled; a send from 0 reaches exactly interface 1. -/
+/-- Wireless: three interfaces, the third disabled; a send from 0 is heard by interface 1 (whose reply does not fit), not by 2;
+interface 2 is enabled while 1 is processing, so the same loop then reaches it and it hears the frame. -/
 example :
     let n : Net := { links := [], chans := [{ caps := [10, 10, 10], load := 0, en := [true, true, false] }] }
-    let r := run n [.act [.wsend 0 0 7 [.wsend 0 1 4 []]], .tick, .act [.wsend 0 2 1 []]]
-    r.2.map (fun x => (x.verdict, x.rcv, x.load)) = [(.full, [], 7), (.carried, [1], 7), (.disabled, [], 0)] := by decide
+    let r := run n [.act [.wsend 0 0 7 [.wrecv 0 0 1, .wsend 0 1 4 [], .wrecv 0 0 2]], .tick,
+                    .act [.wsend 0 0 1 [.wrecv 0 0 1, .wsetEn 0 2 true, .wrecv 0 0 2]], .act [.wsend 0 2 1 [.wrecv 0 2 2]]]
+    r.2.map (fun x => (x.verdict, x.rcv, x.load)) =
+      [(.heard, [1], 7), (.full, [], 7), (.deaf, [2], 7), (.carried, [], 7),
+       (.heard, [1], 1), (.heard, [2], 1), (.carried, [], 1), (.deaf, [2], 2), (.carried, [], 2)] := by decide
 
 /-! ### Exact accounting: the load *is* the data carried -/
 
-/-- Size of the frame if this record says it was carried over wired link (`w = false`) / wireless channel (`w = true`) `k`. -/
+attribute [local simp] Verdict.loaded
+
+/-- Size of the frame if this record says it was carried over wired link (`w = false`) / wireless channel (`w = true`) `k`:
+taken by the far interface, or handed over and then cut short by an exception (`lost`: the frame did cross, and the code keeps
+its size on the load). -/
 def Rec.carriedBy (r : Rec) (w : Bool) (k : Nat) : Nat :=
-  if r.wireless = w ∧ r.k = k ∧ r.verdict = .carried then r.size else 0
+  if r.wireless = w ∧ r.k = k ∧ r.verdict.loaded = true then r.size else 0
 
 /-- Data carried over link / channel `k` according to a trace. -/
 def carriedOn (w : Bool) (k : Nat) : List Rec → Nat
@@ -566,6 +1157,54 @@ theorem runEv_accounts (n : Net) (e : Ev) (k : Nat) :
     cases hc : n.chans[c]? with
     | none => simp [carriedOn]
     | some ch => simp [carriedOn, loadOf]
+  | lost k0 fromA s nested =>
+    unfold runEv
+    cases hk : n.links[k0]? with
+    | none => simp [carriedOn, Rec.carriedBy]
+    | some l =>
+      simp only
+      by_cases h1 : (if fromA then l.enA else l.enB) = true
+      · by_cases h2 : l.isUp = true
+        · by_cases h3 : admits l.load s l.bw = true
+          · simp only [h1, h2, h3, Bool.not_true, Bool.false_eq_true, if_false]
+            have ih := runEvs_accounts { n with links := n.links.set k0 { l with load := l.load + s } } nested k
+            rw [ih, carriedOn_append, loadOf_set n k0 k l _ hk]
+            by_cases hkk : k = k0
+            · subst hkk
+              simp [carriedOn, Rec.carriedBy, loadOf_eq n k l hk]; omega
+            · have : ¬ k0 = k := fun e => hkk e.symm
+              simp [carriedOn, Rec.carriedBy, hkk, this]
+          · simp [h1, h2, h3, carriedOn, Rec.carriedBy]
+        · simp [h1, h2, carriedOn, Rec.carriedBy]
+      · simp [h1, carriedOn, Rec.carriedBy]
+  | wlost c i s nested =>
+    unfold runEv
+    cases hc : n.chans[c]? with
+    | none => simp [carriedOn, Rec.carriedBy]
+    | some ch =>
+      simp only
+      cases hi : ch.en[i]? with
+      | none => simp [carriedOn, Rec.carriedBy]
+      | some enS =>
+        simp only
+        cases hcI : ch.caps[i]? with
+        | none => simp [carriedOn, Rec.carriedBy]
+        | some capI =>
+        simp only
+        cases enS with
+        | false => simp [carriedOn, Rec.carriedBy]
+        | true =>
+          by_cases h3 : admits ch.load s capI = true
+          · simp only [h3, Bool.not_true, Bool.false_eq_true, if_false]
+            have ih := runEvs_accounts { n with chans := n.chans.set c { ch with load := ch.load + s } } nested k
+            rw [ih, carriedOn_append]
+            simp [carriedOn, Rec.carriedBy, loadOf]
+          · simp [h3, carriedOn, Rec.carriedBy]
+  | wrecv c0 i j =>
+    unfold runEv
+    cases hc : n.chans[c0]? with
+    | none => simp [carriedOn, Rec.carriedBy]
+    | some ch => simp [carriedOn, Rec.carriedBy]
 
 theorem runEvs_accounts (n : Net) (es : List Ev) (k : Nat) :
     loadOf (runEvs n es).1 k = loadOf n k + carriedOn false k (runEvs n es).2 := by
@@ -666,6 +1305,50 @@ theorem runEv_bw (n : Net) (e : Ev) (k : Nat) :
     cases hc : n.chans[c]? with
     | none => exact ⟨rfl, rfl⟩
     | some ch => exact ⟨rfl, capOf_set n c k ch { ch with en := ch.en.set i v } hc rfl⟩
+  | lost k0 fromA s nested =>
+    unfold runEv
+    cases hk : n.links[k0]? with
+    | none => exact ⟨rfl, rfl⟩
+    | some l =>
+      simp only
+      by_cases h1 : (if fromA then l.enA else l.enB) = true
+      · by_cases h2 : l.isUp = true
+        · by_cases h3 : admits l.load s l.bw = true
+          · simp only [h1, h2, h3, Bool.not_true, Bool.false_eq_true, if_false]
+            have ih := runEvs_bw { n with links := n.links.set k0 { l with load := l.load + s } } nested k
+            rw [ih.1, ih.2, bwOf_set n k0 k l { l with load := l.load + s } hk rfl]
+            exact ⟨rfl, rfl⟩
+          · simp [h1, h2, h3]
+        · simp [h1, h2]
+      · simp [h1]
+  | wlost c i s nested =>
+    unfold runEv
+    cases hc : n.chans[c]? with
+    | none => exact ⟨rfl, rfl⟩
+    | some ch =>
+      simp only
+      cases hi : ch.en[i]? with
+      | none => exact ⟨rfl, rfl⟩
+      | some enS =>
+        simp only
+        cases hcI : ch.caps[i]? with
+        | none => exact ⟨rfl, rfl⟩
+        | some capI =>
+        simp only
+        cases enS with
+        | false => simp
+        | true =>
+          by_cases h3 : admits ch.load s capI = true
+          · simp only [h3, Bool.not_true, Bool.false_eq_true, if_false]
+            have ih := runEvs_bw { n with chans := n.chans.set c { ch with load := ch.load + s } } nested k
+            rw [ih.1, ih.2, capOf_set n c k ch { ch with load := ch.load + s } hc rfl]
+            exact ⟨rfl, rfl⟩
+          · simp [h3]
+  | wrecv c0 i j =>
+    unfold runEv
+    cases hc : n.chans[c0]? with
+    | none => exact ⟨rfl, rfl⟩
+    | some ch => exact ⟨rfl, rfl⟩
 
 theorem runEvs_bw (n : Net) (es : List Ev) (k : Nat) :
     bwOf (runEvs n es).1 k = bwOf n k ∧ capOf (runEvs n es).1 k = capOf n k := by
@@ -751,6 +1434,54 @@ theorem runEv_air_accounts (n : Net) (e : Ev) (c : Nat) :
       by_cases hcc : c = c0
       · subst hcc; simp [carriedOn, cloadOf_eq n c ch hc]
       · simp [carriedOn, hcc]
+  | lost k0 fromA s nested =>
+    unfold runEv
+    cases hk : n.links[k0]? with
+    | none => simp [carriedOn, Rec.carriedBy]
+    | some l =>
+      simp only
+      by_cases h1 : (if fromA then l.enA else l.enB) = true
+      · by_cases h2 : l.isUp = true
+        · by_cases h3 : admits l.load s l.bw = true
+          · simp only [h1, h2, h3, Bool.not_true, Bool.false_eq_true, if_false]
+            have ih := runEvs_air_accounts { n with links := n.links.set k0 { l with load := l.load + s } } nested c
+            rw [ih, carriedOn_append]
+            simp [carriedOn, Rec.carriedBy, cloadOf]
+          · simp [h1, h2, h3, carriedOn, Rec.carriedBy]
+        · simp [h1, h2, carriedOn, Rec.carriedBy]
+      · simp [h1, carriedOn, Rec.carriedBy]
+  | wlost c0 i s nested =>
+    unfold runEv
+    cases hc : n.chans[c0]? with
+    | none => simp [carriedOn, Rec.carriedBy]
+    | some ch =>
+      simp only
+      cases hi : ch.en[i]? with
+      | none => simp [carriedOn, Rec.carriedBy]
+      | some enS =>
+        simp only
+        cases hcI : ch.caps[i]? with
+        | none => simp [carriedOn, Rec.carriedBy]
+        | some capI =>
+        simp only
+        cases enS with
+        | false => simp [carriedOn, Rec.carriedBy]
+        | true =>
+          by_cases h3 : admits ch.load s capI = true
+          · simp only [h3, Bool.not_true, Bool.false_eq_true, if_false]
+            have ih := runEvs_air_accounts { n with chans := n.chans.set c0 { ch with load := ch.load + s } } nested c
+            rw [ih, carriedOn_append, cloadOf_set n c0 c ch _ hc]
+            by_cases hcc : c = c0
+            · subst hcc
+              simp [carriedOn, Rec.carriedBy, cloadOf_eq n c ch hc]; omega
+            · have : ¬ c0 = c := fun e => hcc e.symm
+              simp [carriedOn, Rec.carriedBy, hcc, this]
+          · simp [h3, carriedOn, Rec.carriedBy]
+  | wrecv c0 i j =>
+    unfold runEv
+    cases hc : n.chans[c0]? with
+    | none => simp [carriedOn, Rec.carriedBy]
+    | some ch => simp [carriedOn, Rec.carriedBy]
 
 theorem runEvs_air_accounts (n : Net) (es : List Ev) (c : Nat) :
     cloadOf (runEvs n es).1 c = cloadOf n c + carriedOn true c (runEvs n es).2 := by
@@ -821,6 +1552,53 @@ theorem C18_air_carried_le_capacity (n : Net) (evs : List Ev) (c : Nat) :
   rw [(runEvs_bw (tick n) evs c).2, (bwOf_tick n c).2] at hle
   exact ⟨hacc.symm, by omega⟩
 
+/-! ### Deliveries cut short by an exception
+
+No code on the delivery path catches exceptions (`Gen.Link.handlersOnDeliveryPath`), so an exception raised while a frame is being
+processed unwinds through every `transmit_frame` / `AirSpace.transmit` below it; none of them releases its reservation.  In the
+model such a send is `Ev.lost` / `Ev.wlost` (any send of any tree, with whatever had completed inside it).  All theorems of this
+file quantify over trees that contain them; in particular `C18_carried_le_bandwidth` and `C18_carried_le_bandwidth_every_tick`
+are the bound for runs with aborted deliveries.  `carriedOn` counts a `lost` frame (it was handed over; the code keeps its size
+on the load), so the accounting stays exact: `load = Σ carried + Σ lost`. -/
+
+/-- An exception that unwinds through an admitted wired send leaves the frame's size on the link and the record says `lost`;
+the hand-over itself happened with both ends enabled. -/
+theorem C18_lost_stays_accounted (n : Net) (k : Nat) (fromA : Bool) (s : Nat) (nested : List Ev) (l : Link)
+    (hl : n.links[k]? = some l) (hup : l.isUp = true) (hfit : l.load + s ≤ l.bw) :
+    loadOf n k + s ≤ loadOf (runEv n (.lost k fromA s nested)).1 k ∧
+    ∃ r ∈ (runEv n (.lost k fromA s nested)).2, r.verdict = .lost ∧ r.size = s ∧ r.k = k ∧ r.wireless = false ∧
+      r.enS = true ∧ r.enR = true := by
+  have hS : (if fromA then l.enA else l.enB) = true := by
+    unfold Link.isUp at hup; cases fromA <;> simp_all
+  have hR : (if fromA then l.enB else l.enA) = true := by
+    unfold Link.isUp at hup; cases fromA <;> simp_all
+  have hadm : admits l.load s l.bw = true := by simp [admits]; exact hfit
+  have hacct := runEv_accounts n (.lost k fromA s nested) k
+  constructor
+  · rw [hacct]
+    unfold runEv
+    simp only [hl, hS, hup, hadm, Bool.not_true, Bool.false_eq_true, if_false]
+    rw [carriedOn_append]
+    simp [carriedOn, Rec.carriedBy]
+  · unfold runEv
+    simp only [hl, hS, hup, hadm, Bool.not_true, Bool.false_eq_true, if_false]
+    exact ⟨_, List.mem_append_right _ (List.mem_singleton.mpr rfl), rfl, rfl, rfl, rfl, rfl, hR⟩
+
+/-- link of 10: a request of 6 whose delivery sends a reply of 3 and then raises; the exception also unwinds through the request.
+The load stays at 9 (nothing is released), a later frame of 2 is dropped at the sender, the tick carried 9 ≤ 10. -/
+example :
+    let n : Net := { links := [{ bw := 10, load := 0, enA := true, enB := true }], chans := [] }
+    let r := runEvs (tick n) [.lost 0 true 6 [.send 0 false 3 true []], .send 0 true 2 true [], .send 0 true 1 true []]
+    r.2.map (·.verdict) = [.carried, .lost, .full, .carried] ∧ carriedOn false 0 r.2 = 10 ∧ loadOf r.1 0 = 10 := by decide
+
+/-- the exception is caught half-way up (as `FTPServer._retrieve_data` would): the inner send is lost, the outer one completes -/
+example :
+    let n : Net := { links := [{ bw := 10, load := 0, enA := true, enB := true }, { bw := 4, load := 0, enA := true, enB := true }],
+                     chans := [{ caps := [7, 7], load := 0, en := [true, true] }] }
+    let r := runEvs (tick n) [.send 0 true 5 true [.lost 1 true 3 [.wlost 0 0 6 []]], .send 1 true 2 true [], .wsend 0 1 2 []]
+    r.2.map (·.verdict) = [.lost, .lost, .carried, .full, .full] ∧
+    (loadOf r.1 0, loadOf r.1 1, cloadOf r.1 0) = (5, 3, 6) := by decide
+
 /-! ### Two frequency names on one hz: capacity per name, load per hz
 
 `AirSpace.can_transmit_frame` tests `bandwidth_load[hz] + size <= capacity(name of the sender)`.  What that guarantees, for every
@@ -830,7 +1608,7 @@ stays within the *smaller* of two capacities registered on it (`C18_air_two_name
 
 /-- Size of the frame if the record is a wireless send on channel `c` that was carried and admitted against a capacity `≤ C`. -/
 def Rec.sentUnder (r : Rec) (c C : Nat) : Nat :=
-  if r.wireless = true ∧ r.k = c ∧ r.verdict = .carried ∧ r.capS ≤ C then r.size else 0
+  if r.wireless = true ∧ r.k = c ∧ r.verdict.loaded = true ∧ r.capS ≤ C then r.size else 0
 
 def sentUnder (c C : Nat) : List Rec → Nat
   | [] => 0
@@ -847,8 +1625,9 @@ theorem sentUnder_le_carriedOn (c C : Nat) (rs : List Rec) : sentUnder c C rs 
   | nil => simp [sentUnder, carriedOn]
   | cons r rs ih =>
     simp only [sentUnder, carriedOn, Rec.sentUnder, Rec.carriedBy]
-    by_cases h : r.wireless = true ∧ r.k = c ∧ r.verdict = .carried ∧ r.capS ≤ C
-    · simp only [h, and_self, if_true]; omega
+    by_cases h : r.wireless = true ∧ r.k = c ∧ r.verdict.loaded = true ∧ r.capS ≤ C
+    · obtain ⟨h1, h2, _, h4⟩ := h
+      simp [h1, h2, h4]; exact ih
     · simp only [h, if_false]; omega
 
 mutual
@@ -929,6 +1708,67 @@ theorem runEv_under (n : Net) (e : Ev) (c C A : Nat) (hA : A ≤ cloadOf n c) (h
     cases hc : n.chans[c0]? with
     | none => simpa [sentUnder] using hC
     | some ch => simpa [sentUnder] using hC
+  | lost k0 fromA s nested =>
+    unfold runEv
+    cases hk : n.links[k0]? with
+    | none => simpa [sentUnder, Rec.sentUnder] using hC
+    | some l =>
+      simp only
+      by_cases h1 : (if fromA then l.enA else l.enB) = true
+      · by_cases h2 : l.isUp = true
+        · by_cases h3 : admits l.load s l.bw = true
+          · simp only [h1, h2, h3, Bool.not_true, Bool.false_eq_true, if_false]
+            have ih := runEvs_under { n with links := n.links.set k0 { l with load := l.load + s } } nested c C A
+              (by simpa [cloadOf] using hA) hC
+            rw [sentUnder_append]
+            simpa [sentUnder, Rec.sentUnder] using ih
+          · simpa [h1, h2, h3, sentUnder, Rec.sentUnder] using hC
+        · simpa [h1, h2, sentUnder, Rec.sentUnder] using hC
+      · simpa [h1, sentUnder, Rec.sentUnder] using hC
+  | wlost c0 i s nested =>
+    unfold runEv
+    cases hc : n.chans[c0]? with
+    | none => simpa [sentUnder, Rec.sentUnder] using hC
+    | some ch =>
+      simp only
+      cases hi : ch.en[i]? with
+      | none => simpa [sentUnder, Rec.sentUnder] using hC
+      | some enS =>
+        simp only
+        cases hcI : ch.caps[i]? with
+        | none => simpa [sentUnder, Rec.sentUnder] using hC
+        | some capI =>
+        simp only
+        cases enS with
+        | false => simpa [sentUnder, Rec.sentUnder] using hC
+        | true =>
+          by_cases h3 : admits ch.load s capI = true
+          · simp only [h3, Bool.not_true, Bool.false_eq_true, if_false]
+            have hfit : ch.load + s ≤ capI := by simpa [admits] using h3
+            rw [sentUnder_append]
+            have hload := cloadOf_set n c0 c ch { ch with load := ch.load + s } hc
+            by_cases hcc : c = c0
+            · subst hcc
+              have hL : cloadOf n c = ch.load := cloadOf_eq n c ch hc
+              simp only [if_true] at hload
+              by_cases hlow : capI ≤ C
+              · have ih := runEvs_under { n with chans := n.chans.set c { ch with load := ch.load + s } } nested c C (A + s)
+                  (by rw [hload]; omega) (by omega)
+                simp [sentUnder, Rec.sentUnder, hlow]; omega
+              · have ih := runEvs_under { n with chans := n.chans.set c { ch with load := ch.load + s } } nested c C A
+                  (by rw [hload]; omega) hC
+                simp [sentUnder, Rec.sentUnder, hlow]; omega
+            · simp only [hcc, if_false] at hload
+              have ih := runEvs_under { n with chans := n.chans.set c0 { ch with load := ch.load + s } } nested c C A
+                (by rw [hload]; exact hA) hC
+              have : ¬ c0 = c := fun e => hcc e.symm
+              simp [sentUnder, Rec.sentUnder, this]; omega
+          · simpa [h3, sentUnder, Rec.sentUnder] using hC
+  | wrecv c0 i j =>
+    unfold runEv
+    cases hc : n.chans[c0]? with
+    | none => simpa [sentUnder, Rec.sentUnder] using hC
+    | some ch => simpa [sentUnder, Rec.sentUnder] using hC
 
 theorem runEvs_under (n : Net) (es : List Ev) (c C A : Nat) (hA : A ≤ cloadOf n c) (hC : A ≤ C) :
     A + sentUnder c C (runEvs n es).2 ≤ C := by
@@ -976,6 +1816,192 @@ theorem C18_air_two_names_counterexample : ¬ C18_Full_air_every_name := by
   revert this
   decide
 
+/-! ### The same per-capacity bound for wired links (what remains true when a bandwidth is changed in mid-tick)
+
+A record keeps the capacity its admission test used (`capS`: the link's bandwidth at that moment).  For every bound `C`: the frames
+carried over a link in a tick that were admitted against a bandwidth of at most `C` add up to at most `C`.  With a constant
+bandwidth this is the plain statement; with `link.bandwidth` reassigned between two actions it says exactly what the admission
+test still guarantees: the link carries no more than the **largest bandwidth it was given during the tick**. -/
+
+/-- Size of the frame if the record is a wired send on link `k` that stays on the load and was admitted against a bandwidth `≤ C`. -/
+def Rec.carriedUnder (r : Rec) (k C : Nat) : Nat :=
+  if r.wireless = false ∧ r.k = k ∧ r.verdict.loaded = true ∧ r.capS ≤ C then r.size else 0
+
+def carriedUnder (k C : Nat) : List Rec → Nat
+  | [] => 0
+  | r :: rs => r.carriedUnder k C + carriedUnder k C rs
+
+theorem carriedUnder_append (k C : Nat) (a b : List Rec) :
+    carriedUnder k C (a ++ b) = carriedUnder k C a + carriedUnder k C b := by
+  induction a with
+  | nil => simp [carriedUnder]
+  | cons r rs ih => simp [carriedUnder, ih, Nat.add_assoc]
+
+theorem carriedUnder_le_carriedOn (k C : Nat) (rs : List Rec) : carriedUnder k C rs ≤ carriedOn false k rs := by
+  induction rs with
+  | nil => simp [carriedUnder, carriedOn]
+  | cons r rs ih =>
+    simp only [carriedUnder, carriedOn, Rec.carriedUnder, Rec.carriedBy]
+    by_cases h : r.wireless = false ∧ r.k = k ∧ r.verdict.loaded = true ∧ r.capS ≤ C
+    · obtain ⟨h1, h2, _, h4⟩ := h
+      simp [h1, h2, h4]; exact ih
+    · simp only [h, if_false]; omega
+
+mutual
+theorem runEv_wunder (n : Net) (e : Ev) (k C A : Nat) (hA : A ≤ loadOf n k) (hC : A ≤ C) :
+    A + carriedUnder k C (runEv n e).2 ≤ C := by
+  cases e with
+  | send k0 fromA s acc nested =>
+    unfold runEv
+    cases hk : n.links[k0]? with
+    | none => simpa [carriedUnder, Rec.carriedUnder] using hC
+    | some l =>
+      simp only
+      by_cases h1 : (if fromA then l.enA else l.enB) = true
+      · by_cases h2 : l.isUp = true
+        · by_cases h3 : admits l.load s l.bw = true
+          · simp only [h1, h2, h3, Bool.not_true, Bool.false_eq_true, if_false]
+            have hfit : l.load + s ≤ l.bw := by simpa [admits] using h3
+            cases acc with
+            | true =>
+              simp only [if_true]
+              rw [carriedUnder_append]
+              have hload := loadOf_set n k0 k l { l with load := l.load + s } hk
+              by_cases hkk : k = k0
+              · subst hkk
+                have hL : loadOf n k = l.load := loadOf_eq n k l hk
+                simp only [if_true] at hload
+                by_cases hlow : l.bw ≤ C
+                · have ih := runEvs_wunder { n with links := n.links.set k { l with load := l.load + s } } nested k C (A + s)
+                    (by rw [hload]; omega) (by omega)
+                  simp [carriedUnder, Rec.carriedUnder, hlow]; omega
+                · have ih := runEvs_wunder { n with links := n.links.set k { l with load := l.load + s } } nested k C A
+                    (by rw [hload]; omega) hC
+                  simp [carriedUnder, Rec.carriedUnder, hlow]; omega
+              · simp only [hkk, if_false] at hload
+                have ih := runEvs_wunder { n with links := n.links.set k0 { l with load := l.load + s } } nested k C A
+                  (by rw [hload]; exact hA) hC
+                have : ¬ k0 = k := fun e => hkk e.symm
+                simp [carriedUnder, Rec.carriedUnder, this]; omega
+            | false => simpa [carriedUnder, Rec.carriedUnder] using hC
+          · simpa [h1, h2, h3, carriedUnder, Rec.carriedUnder] using hC
+        · simpa [h1, h2, carriedUnder, Rec.carriedUnder] using hC
+      · simpa [h1, carriedUnder, Rec.carriedUnder] using hC
+  | wsend c0 i s nested =>
+    unfold runEv
+    cases hc : n.chans[c0]? with
+    | none => simpa [carriedUnder, Rec.carriedUnder] using hC
+    | some ch =>
+      simp only
+      cases hi : ch.en[i]? with
+      | none => simpa [carriedUnder, Rec.carriedUnder] using hC
+      | some enS =>
+        simp only
+        cases hcI : ch.caps[i]? with
+        | none => simpa [carriedUnder, Rec.carriedUnder] using hC
+        | some capI =>
+        simp only
+        cases enS with
+        | false => simpa [carriedUnder, Rec.carriedUnder] using hC
+        | true =>
+          by_cases h3 : admits ch.load s capI = true
+          · simp only [h3, Bool.not_true, Bool.false_eq_true, if_false]
+            have ih := runEvs_wunder { n with chans := n.chans.set c0 { ch with load := ch.load + s } } nested k C A
+              (by simpa [loadOf] using hA) hC
+            rw [carriedUnder_append]
+            simpa [carriedUnder, Rec.carriedUnder] using ih
+          · simpa [h3, carriedUnder, Rec.carriedUnder] using hC
+  | setEn k0 endA v =>
+    unfold runEv
+    cases hk : n.links[k0]? with
+    | none => simpa [carriedUnder] using hC
+    | some l =>
+      simp only
+      by_cases hcur : ((if endA then l.enA else l.enB) == v) = true
+      · simpa [hcur, carriedUnder] using hC
+      · simpa [hcur, carriedUnder] using hC
+  | wsetEn c0 i v =>
+    unfold runEv
+    cases hc : n.chans[c0]? with
+    | none => simpa [carriedUnder] using hC
+    | some ch => simpa [carriedUnder] using hC
+  | lost k0 fromA s nested =>
+    unfold runEv
+    cases hk : n.links[k0]? with
+    | none => simpa [carriedUnder, Rec.carriedUnder] using hC
+    | some l =>
+      simp only
+      by_cases h1 : (if fromA then l.enA else l.enB) = true
+      · by_cases h2 : l.isUp = true
+        · by_cases h3 : admits l.load s l.bw = true
+          · simp only [h1, h2, h3, Bool.not_true, Bool.false_eq_true, if_false]
+            have hfit : l.load + s ≤ l.bw := by simpa [admits] using h3
+            rw [carriedUnder_append]
+            have hload := loadOf_set n k0 k l { l with load := l.load + s } hk
+            by_cases hkk : k = k0
+            · subst hkk
+              have hL : loadOf n k = l.load := loadOf_eq n k l hk
+              simp only [if_true] at hload
+              by_cases hlow : l.bw ≤ C
+              · have ih := runEvs_wunder { n with links := n.links.set k { l with load := l.load + s } } nested k C (A + s)
+                  (by rw [hload]; omega) (by omega)
+                simp [carriedUnder, Rec.carriedUnder, hlow]; omega
+              · have ih := runEvs_wunder { n with links := n.links.set k { l with load := l.load + s } } nested k C A
+                  (by rw [hload]; omega) hC
+                simp [carriedUnder, Rec.carriedUnder, hlow]; omega
+            · simp only [hkk, if_false] at hload
+              have ih := runEvs_wunder { n with links := n.links.set k0 { l with load := l.load + s } } nested k C A
+                (by rw [hload]; exact hA) hC
+              have : ¬ k0 = k := fun e => hkk e.symm
+              simp [carriedUnder, Rec.carriedUnder, this]; omega
+          · simpa [h1, h2, h3, carriedUnder, Rec.carriedUnder] using hC
+        · simpa [h1, h2, carriedUnder, Rec.carriedUnder] using hC
+      · simpa [h1, carriedUnder, Rec.carriedUnder] using hC
+  | wlost c0 i s nested =>
+    unfold runEv
+    cases hc : n.chans[c0]? with
+    | none => simpa [carriedUnder, Rec.carriedUnder] using hC
+    | some ch =>
+      simp only
+      cases hi : ch.en[i]? with
+      | none => simpa [carriedUnder, Rec.carriedUnder] using hC
+      | some enS =>
+        simp only
+        cases hcI : ch.caps[i]? with
+        | none => simpa [carriedUnder, Rec.carriedUnder] using hC
+        | some capI =>
+        simp only
+        cases enS with
+        | false => simpa [carriedUnder, Rec.carriedUnder] using hC
+        | true =>
+          by_cases h3 : admits ch.load s capI = true
+          · simp only [h3, Bool.not_true, Bool.false_eq_true, if_false]
+            have ih := runEvs_wunder { n with chans := n.chans.set c0 { ch with load := ch.load + s } } nested k C A
+              (by simpa [loadOf] using hA) hC
+            rw [carriedUnder_append]
+            simpa [carriedUnder, Rec.carriedUnder] using ih
+          · simpa [h3, carriedUnder, Rec.carriedUnder] using hC
+  | wrecv c0 i j =>
+    unfold runEv
+    cases hc : n.chans[c0]? with
+    | none => simpa [carriedUnder, Rec.carriedUnder] using hC
+    | some ch => simpa [carriedUnder, Rec.carriedUnder] using hC
+
+theorem runEvs_wunder (n : Net) (es : List Ev) (k C A : Nat) (hA : A ≤ loadOf n k) (hC : A ≤ C) :
+    A + carriedUnder k C (runEvs n es).2 ≤ C := by
+  cases es with
+  | nil => simpa [runEvs, carriedUnder] using hC
+  | cons e es =>
+    unfold runEvs
+    have h1 := runEv_wunder n e k C A hA hC
+    have hacc := runEv_accounts n e k
+    have hle := carriedUnder_le_carriedOn k C (runEv n e).2
+    have h2 := runEvs_wunder (runEv n e).1 es k C (A + carriedUnder k C (runEv n e).2) (by omega) h1
+    simp only
+    rw [carriedUnder_append]
+    omega
+end
+
 /-! ### Every tick of every history
 
 `runSeg` runs a history and cuts the trace at the tick boundaries: one list of records per tick (the first list is what happened
@@ -985,6 +2011,8 @@ def runSeg (n : Net) (cur : List Rec) : List Op → Net × List (List Rec)
   | [] => (n, [cur])
   | .tick :: os => let r := runSeg (tick n) [] os; (r.1, cur :: r.2)
   | .act evs :: os => let r := runEvs n evs; runSeg r.1 (cur ++ r.2) os
+  | .setBw k v :: os => runSeg (setBw n k v) cur os
+  | .setCap c i v :: os => runSeg (setCap n c i v) cur os
 
 /-- `runSeg` is `run` with the trace cut into ticks: same final state, same records in the same order. -/
 theorem runSeg_eq_run (n : Net) (cur : List Rec) (ops : List Op) :
@@ -1001,20 +2029,66 @@ theorem runSeg_eq_run (n : Net) (cur : List Rec) (ops : List Op) :
       obtain ⟨h1, h2⟩ := ih (runEvs n evs).1 (cur ++ (runEvs n evs).2)
       simp only [runSeg, run, step]
       exact ⟨h1, by rw [h2]; simp⟩
+    | setBw k v =>
+      obtain ⟨h1, h2⟩ := ih (setBw n k v) cur
+      simp only [runSeg, run, step]
+      exact ⟨h1, by rw [h2]; simp⟩
+    | setCap c i v =>
+      obtain ⟨h1, h2⟩ := ih (setCap n c i v) cur
+      simp only [runSeg, run, step]
+      exact ⟨h1, by rw [h2]; simp⟩
 
-/-- What a tick's trace `cur` and the state `n` it has led to have in common: within capacity, and on every link / channel the
-data carried so far in the tick is covered by the load; the low-capacity senders are within their bound. -/
-def SegOk (n : Net) (cur : List Rec) : Prop :=
-  Inv n ∧ (∀ k, carriedOn false k cur ≤ loadOf n k) ∧ (∀ c, carriedOn true c cur ≤ cloadOf n c) ∧
-  (∀ c C, sentUnder c C cur ≤ cloadOf n c ∧ sentUnder c C cur ≤ C)
+theorem loadOf_setBw (n : Net) (k v k' : Nat) : loadOf (setBw n k v) k' = loadOf n k' := by
+  unfold setBw
+  cases hk : n.links[k]? with
+  | none => rfl
+  | some l =>
+    simp only
+    rw [loadOf_set n k k' l _ hk]
+    by_cases h : k' = k
+    · subst h; simp [loadOf_eq n k' l hk]
+    · simp [h]
 
-theorem segOk_tick (n : Net) : SegOk (tick n) [] :=
-  ⟨tick_inv n, fun _ => Nat.zero_le _, fun _ => Nat.zero_le _, fun _ _ => ⟨Nat.zero_le _, Nat.zero_le _⟩⟩
+theorem cloadOf_setBw (n : Net) (k v c : Nat) : cloadOf (setBw n k v) c = cloadOf n c := by
+  unfold setBw
+  cases n.links[k]? <;> rfl
 
-theorem segOk_act (n : Net) (cur : List Rec) (evs : List Ev) (h : SegOk n cur) :
-    SegOk (runEvs n evs).1 (cur ++ (runEvs n evs).2) := by
-  obtain ⟨hi, hw, ha, hu⟩ := h
-  refine ⟨(runEvs_ok n evs hi).1, ?_, ?_, ?_⟩
+theorem cloadOf_setCap (n : Net) (c i v c' : Nat) : cloadOf (setCap n c i v) c' = cloadOf n c' := by
+  unfold setCap
+  cases hc : n.chans[c]? with
+  | none => rfl
+  | some ch =>
+    simp only
+    rw [cloadOf_set n c c' ch _ hc]
+    by_cases h : c' = c
+    · subst h; simp [cloadOf_eq n c' ch hc]
+    · simp [h]
+
+theorem loadOf_setCap (n : Net) (c i v k : Nat) : loadOf (setCap n c i v) k = loadOf n k := by
+  unfold setCap
+  cases n.chans[c]? <;> rfl
+
+/-- What a tick's trace `cur` and the state `n` it has led to have in common **whatever happens** (capacity changes, aborted
+deliveries): on every link / channel the data carried so far in the tick is covered by the load, and for every bound `C` the
+data admitted against capacities of at most `C` is covered by the load and within `C`. -/
+def SegOkG (n : Net) (cur : List Rec) : Prop :=
+  (∀ k, carriedOn false k cur ≤ loadOf n k) ∧ (∀ c, carriedOn true c cur ≤ cloadOf n c) ∧
+  (∀ c C, sentUnder c C cur ≤ cloadOf n c ∧ sentUnder c C cur ≤ C) ∧
+  (∀ k C, carriedUnder k C cur ≤ loadOf n k ∧ carriedUnder k C cur ≤ C)
+
+/-- The same plus: the state is within capacity (needs: no capacity was lowered below a load). -/
+def SegOk (n : Net) (cur : List Rec) : Prop := Inv n ∧ SegOkG n cur
+
+theorem segOkG_tick (n : Net) : SegOkG (tick n) [] :=
+  ⟨fun _ => Nat.zero_le _, fun _ => Nat.zero_le _, fun _ _ => ⟨Nat.zero_le _, Nat.zero_le _⟩,
+   fun _ _ => ⟨Nat.zero_le _, Nat.zero_le _⟩⟩
+
+theorem segOk_tick (n : Net) : SegOk (tick n) [] := ⟨tick_inv n, segOkG_tick n⟩
+
+theorem segOkG_act (n : Net) (cur : List Rec) (evs : List Ev) (h : SegOkG n cur) :
+    SegOkG (runEvs n evs).1 (cur ++ (runEvs n evs).2) := by
+  obtain ⟨hw, ha, hu, hk⟩ := h
+  refine ⟨?_, ?_, ?_, ?_⟩
   · intro k
     rw [carriedOn_append, runEvs_accounts n evs k]
     have := hw k; omega
@@ -1027,24 +2101,131 @@ theorem segOk_act (n : Net) (cur : List Rec) (evs : List Ev) (h : SegOk n cur) :
     have h2 := sentUnder_le_carriedOn c C (runEvs n evs).2
     have := (hu c C).1
     exact ⟨by omega, h1⟩
+  · intro k C
+    rw [carriedUnder_append, runEvs_accounts n evs k]
+    have h1 := runEvs_wunder n evs k C (carriedUnder k C cur) (hk k C).1 (hk k C).2
+    have h2 := carriedUnder_le_carriedOn k C (runEvs n evs).2
+    have := (hk k C).1
+    exact ⟨by omega, h1⟩
 
-theorem runSeg_bw (n : Net) (cur : List Rec) (ops : List Op) (k : Nat) :
+theorem segOk_act (n : Net) (cur : List Rec) (evs : List Ev) (h : SegOk n cur) :
+    SegOk (runEvs n evs).1 (cur ++ (runEvs n evs).2) :=
+  ⟨(runEvs_ok n evs h.1).1, segOkG_act n cur evs h.2⟩
+
+theorem segOkG_setBw (n : Net) (cur : List Rec) (k v : Nat) (h : SegOkG n cur) : SegOkG (setBw n k v) cur := by
+  obtain ⟨hw, ha, hu, hk⟩ := h
+  refine ⟨?_, ?_, ?_, ?_⟩
+  · intro k'; rw [loadOf_setBw]; exact hw k'
+  · intro c; rw [cloadOf_setBw]; exact ha c
+  · intro c C; rw [cloadOf_setBw]; exact hu c C
+  · intro k' C; rw [loadOf_setBw]; exact hk k' C
+
+theorem segOkG_setCap (n : Net) (cur : List Rec) (c i v : Nat) (h : SegOkG n cur) : SegOkG (setCap n c i v) cur := by
+  obtain ⟨hw, ha, hu, hk⟩ := h
+  refine ⟨?_, ?_, ?_, ?_⟩
+  · intro k'; rw [loadOf_setCap]; exact hw k'
+  · intro c'; rw [cloadOf_setCap]; exact ha c'
+  · intro c' C; rw [cloadOf_setCap]; exact hu c' C
+  · intro k' C; rw [loadOf_setCap]; exact hk k' C
+
+/-- Every tick's trace of **any** history is covered by some state that satisfies `SegOkG` with it. -/
+theorem runSeg_okG (n : Net) (cur : List Rec) (ops : List Op) (h : SegOkG n cur) :
+    ∀ g ∈ (runSeg n cur ops).2, ∃ n', SegOkG n' g := by
+  induction ops generalizing n cur with
+  | nil =>
+    intro g hg
+    simp only [runSeg, List.mem_singleton] at hg
+    subst hg
+    exact ⟨n, h⟩
+  | cons o os ih =>
+    cases o with
+    | tick =>
+      intro g hg
+      simp only [runSeg, List.mem_cons] at hg
+      rcases hg with hg | hg
+      · subst hg; exact ⟨n, h⟩
+      · exact ih (tick n) [] (segOkG_tick n) g hg
+    | act evs =>
+      intro g hg
+      simp only [runSeg] at hg
+      exact ih (runEvs n evs).1 (cur ++ (runEvs n evs).2) (segOkG_act n cur evs h) g hg
+    | setBw k v =>
+      intro g hg
+      simp only [runSeg] at hg
+      exact ih (setBw n k v) cur (segOkG_setBw n cur k v h) g hg
+    | setCap c i v =>
+      intro g hg
+      simp only [runSeg] at hg
+      exact ih (setCap n c i v) cur (segOkG_setCap n cur c i v h) g hg
+
+/-- **Every tick of every episode, whatever happens** — sends nested in deliveries, interfaces toggled anywhere, deliveries cut
+short by exceptions, **bandwidths and frequency capacities reassigned between actions** (raised or lowered, in mid-tick or not).
+In each tick, for every wired link and every bound `C`: the data carried over the link by frames that were admitted against a
+bandwidth of at most `C` is at most `C`; the same for every wireless channel and the capacities of the senders' frequency names.
+So a link carries, in a tick, no more than the largest bandwidth it had while it was admitting, and the interfaces of one
+frequency name send no more than the largest capacity that name had. -/
+theorem C18_admitted_under_every_tick (n : Net) (ops : List Op) :
+    ∀ g ∈ (runSeg (tick n) [] ops).2, (∀ k C, carriedUnder k C g ≤ C) ∧ (∀ c C, sentUnder c C g ≤ C) := by
+  intro g hg
+  obtain ⟨n', _, _, hu, hk⟩ := runSeg_okG (tick n) [] ops (segOkG_tick n) g hg
+  exact ⟨fun k C => (hk k C).2, fun c C => (hu c C).2⟩
+
+theorem carriedUnder_eq_carriedOn (k C : Nat) (g : List Rec)
+    (h : ∀ r ∈ g, r.wireless = false → r.k = k → r.capS ≤ C) : carriedUnder k C g = carriedOn false k g := by
+  induction g with
+  | nil => rfl
+  | cons r rs ih =>
+    have ih' := ih (fun r' hr' => h r' (List.mem_cons_of_mem _ hr'))
+    have hr := h r (List.mem_cons_self ..)
+    simp only [carriedUnder, carriedOn, ih', Rec.carriedUnder, Rec.carriedBy]
+    by_cases hc : r.wireless = false ∧ r.k = k ∧ r.verdict.loaded = true
+    · have : r.wireless = false ∧ r.k = k ∧ r.verdict.loaded = true ∧ r.capS ≤ C := ⟨hc.1, hc.2.1, hc.2.2, hr hc.1 hc.2.1⟩
+      rw [if_pos hc, if_pos this]
+    · have : ¬ (r.wireless = false ∧ r.k = k ∧ r.verdict.loaded = true ∧ r.capS ≤ C) := fun x => hc ⟨x.1, x.2.1, x.2.2.1⟩
+      rw [if_neg hc, if_neg this]
+
+/-- **Carried ≤ the largest bandwidth in force.** In each tick of any history: if every send on link `k` in that tick was tested
+against a bandwidth of at most `B` (in particular: `B` = the bandwidth, when nobody reassigns it), the data carried over `k` in
+that tick is at most `B`. -/
+theorem C18_carried_le_peak_bandwidth (n : Net) (ops : List Op) :
+    ∀ g ∈ (runSeg (tick n) [] ops).2, ∀ k B, (∀ r ∈ g, r.wireless = false → r.k = k → r.capS ≤ B) →
+      carriedOn false k g ≤ B := by
+  intro g hg k B hB
+  rw [← carriedUnder_eq_carriedOn k B g hB]
+  exact ((C18_admitted_under_every_tick n ops g hg).1 k B)
+
+/-- bandwidth 10 lowered to 5 after 8 were carried, raised to 12 later in the same tick: frames admitted against ≤ 10 sum to 8,
+against ≤ 12 to 11 (8 + 3), against ≤ 5 to 0; the second tick starts from zero against the bandwidth 12 -/
+example :
+    let n : Net := { links := [{ bw := 10, load := 0, enA := true, enB := true }], chans := [] }
+    let r := runSeg (tick n) [] [.act [.send 0 true 8 true []], .setBw 0 5, .act [.send 0 true 1 true []], .setBw 0 12,
+                                 .act [.send 0 true 3 true [], .send 0 true 2 true []], .tick, .act [.send 0 true 12 true []]]
+    r.2.map (fun g => (carriedUnder 0 5 g, carriedUnder 0 10 g, carriedUnder 0 12 g, carriedOn false 0 g)) =
+      [(0, 8, 11, 11), (0, 0, 12, 12)] ∧
+    r.2.map (·.map (·.verdict)) = [[.carried, .full, .carried, .full], [.carried]] := by decide
+
+theorem runSeg_bw (n : Net) (cur : List Rec) (ops : List Op) (hn : NoCap ops) (k : Nat) :
     bwOf (runSeg n cur ops).1 k = bwOf n k ∧ capOf (runSeg n cur ops).1 k = capOf n k := by
   induction ops generalizing n cur with
   | nil => exact ⟨rfl, rfl⟩
   | cons o os ih =>
+    have ho : o.isCap = false := hn o (List.mem_cons_self ..)
+    have hos : NoCap os := fun o' h' => hn o' (List.mem_cons_of_mem _ h')
     cases o with
     | tick =>
-      have := ih (tick n) []
+      have := ih (tick n) [] hos
       simp only [runSeg]
       exact ⟨this.1.trans (bwOf_tick n k).1, this.2.trans (bwOf_tick n k).2⟩
     | act evs =>
-      have := ih (runEvs n evs).1 (cur ++ (runEvs n evs).2)
+      have := ih (runEvs n evs).1 (cur ++ (runEvs n evs).2) hos
       simp only [runSeg]
       exact ⟨this.1.trans (runEvs_bw n evs k).1, this.2.trans (runEvs_bw n evs k).2⟩
+    | setBw k' v => simp [Op.isCap] at ho
+    | setCap c i v => simp [Op.isCap] at ho
 
-/-- Every tick's trace of a history is covered by some state of the same capacities that satisfies `SegOk` with it. -/
-theorem runSeg_ok (n : Net) (cur : List Rec) (ops : List Op) (h : SegOk n cur) :
+/-- Every tick's trace of a history without capacity changes is covered by some state of the same capacities that satisfies
+`SegOk` with it. -/
+theorem runSeg_ok (n : Net) (cur : List Rec) (ops : List Op) (hn : NoCap ops) (h : SegOk n cur) :
     ∀ g ∈ (runSeg n cur ops).2, ∃ n', SegOk n' g ∧ ∀ k, bwOf n' k = bwOf n k ∧ capOf n' k = capOf n k := by
   induction ops generalizing n cur with
   | nil =>
@@ -1053,29 +2234,34 @@ theorem runSeg_ok (n : Net) (cur : List Rec) (ops : List Op) (h : SegOk n cur) :
     subst hg
     exact ⟨n, h, fun _ => ⟨rfl, rfl⟩⟩
   | cons o os ih =>
+    have ho : o.isCap = false := hn o (List.mem_cons_self ..)
+    have hos : NoCap os := fun o' h' => hn o' (List.mem_cons_of_mem _ h')
     cases o with
     | tick =>
       intro g hg
       simp only [runSeg, List.mem_cons] at hg
       rcases hg with hg | hg
       · subst hg; exact ⟨n, h, fun _ => ⟨rfl, rfl⟩⟩
-      · obtain ⟨n', h1, h2⟩ := ih (tick n) [] (segOk_tick n) g hg
+      · obtain ⟨n', h1, h2⟩ := ih (tick n) [] hos (segOk_tick n) g hg
         exact ⟨n', h1, fun k => ⟨(h2 k).1.trans (bwOf_tick n k).1, (h2 k).2.trans (bwOf_tick n k).2⟩⟩
     | act evs =>
       intro g hg
       simp only [runSeg] at hg
-      obtain ⟨n', h1, h2⟩ := ih (runEvs n evs).1 (cur ++ (runEvs n evs).2) (segOk_act n cur evs h) g hg
+      obtain ⟨n', h1, h2⟩ := ih (runEvs n evs).1 (cur ++ (runEvs n evs).2) hos (segOk_act n cur evs h) g hg
       exact ⟨n', h1, fun k => ⟨(h2 k).1.trans (runEvs_bw n evs k).1, (h2 k).2.trans (runEvs_bw n evs k).2⟩⟩
+    | setBw k' v => simp [Op.isCap] at ho
+    | setCap c i v => simp [Op.isCap] at ho
 
-/-- **Every tick of every episode.** Start anywhere (any network, any loads), pass a tick boundary, then run any history of
-ticks and actions: in *each* tick of that history, for every wired link the data carried in that tick is within the link's
-bandwidth, for every wireless channel the data sent in that tick is within the channel's (largest) capacity, and for every bound
-`C` the data sent by interfaces whose frequency name has capacity at most `C` is within `C`. -/
-theorem C18_carried_le_bandwidth_every_tick (n : Net) (ops : List Op) :
+/-- **Every tick of every episode** (constant capacities). Start anywhere (any network, any loads), pass a tick boundary, then run
+any history of ticks and actions — nested sends, interface toggles, deliveries cut short by exceptions: in *each* tick of that
+history, for every wired link the data carried in that tick is within the link's bandwidth, for every wireless channel the data
+sent in that tick is within the channel's (largest) capacity, and for every bound `C` the data sent by interfaces whose frequency
+name has capacity at most `C` is within `C`.  (Histories that reassign capacities: `C18_admitted_under_every_tick`.) -/
+theorem C18_carried_le_bandwidth_every_tick (n : Net) (ops : List Op) (hn : NoCap ops) :
     ∀ g ∈ (runSeg (tick n) [] ops).2,
       (∀ k, carriedOn false k g ≤ bwOf n k) ∧ (∀ c, carriedOn true c g ≤ capOf n c) ∧ (∀ c C, sentUnder c C g ≤ C) := by
   intro g hg
-  obtain ⟨n', ⟨hi, hw, ha, hu⟩, hb⟩ := runSeg_ok (tick n) [] ops (segOk_tick n) g hg
+  obtain ⟨n', ⟨hi, hw, ha, hu, _⟩, hb⟩ := runSeg_ok (tick n) [] ops hn (segOk_tick n) g hg
   refine ⟨?_, ?_, fun c C => (hu c C).2⟩
   · intro k
     have h1 := hw k
